@@ -149,16 +149,23 @@ Proof. repeat constructor; eexists; reflexivity. Qed.
    context of accepted SPSs, leave the context holding exactly those two structures (C04 + C05 + C02 + C15 + C08 + C01 + C19). *)
 Theorem C12_stream_sps_pps : forall x lists k1 p plists k2 n1 n2 t cs ctx0 pre,
   let c1 := put_seq_param_set ctx0 x in
-  let u1 := nal_of_bits 103 (enc_sps x lists ++ trailing_bits k1) in
-  let u2 := nal_of_bits 104 (enc_pps p plists ++ trailing_bits k2) in
   wf_sps x lists -> ctx_sps_ok ctx0 -> wf_pps c1 p plists ->
+  (k1 < 8)%nat -> (k2 < 8)%nat ->
   (8 | N.of_nat (length (enc_sps x lists ++ trailing_bits k1))) ->
   (8 | N.of_nat (length (enc_pps p plists ++ trailing_bits k2))) ->
-  unit_ok u1 -> unit_ok u2 -> (t = 0%nat \/ 3 <= t)%nat ->
-  concat cs = annexb_encode [(n1, u1); (n2, u2)] t ->
+  (t = 0%nat \/ 3 <= t)%nat ->
+  concat cs = annexb_encode [(n1, nal_of_bits 103 (enc_sps x lists ++ trailing_bits k1));
+                             (n2, nal_of_bits 104 (enc_pps p plists ++ trailing_bits k2))] t ->
   ps_ctx (fst (pipeline_run ctx0 [] pre (map APush cs ++ [AReset]))) = put_pic_param_set c1 p.
-Proof. exact stream_sps_pps_context. Qed.
+Proof. exact stream_sps_pps. Qed.
 Print Assumptions C12_stream_sps_pps.
+
+(* why no condition on the bytes is needed: the stop bit of the rbsp trailing bits lies in the last RBSP byte, so a NAL made
+   of a non-zero header byte and the escaped RBSP is non-empty, ends in a non-zero byte and contains no 00 00 0x (x <= 2) *)
+Theorem C12_nal_of_bits_unit_ok : forall hdr b k, hdr <> 0 -> (k < 8)%nat -> (8 | N.of_nat (length (b ++ trailing_bits k))) ->
+  unit_ok (nal_of_bits hdr (b ++ trailing_bits k)).
+Proof. exact nal_of_bits_unit_ok. Qed.
+Print Assumptions C12_nal_of_bits_unit_ok.
 
 (* non-vacuity: every hypothesis of C12_stream_sps_pps holds of the High 4:4:4 SPS and the slice-group / scaling-list PPS
    of C05_ex (2 and 3 trailing zero bits complete the bytes), so the theorem applies to every partition of their stream *)
